@@ -33,7 +33,7 @@ use std::cell::RefCell;
 pub const META: PropertyMeta = PropertyMeta {
     id: "C11",
     level: "exploration",
-    rule: "routes: proptest generates the account content and the pending local changes that make request bodies valid and state-changing (notes per folder, extra folder, new folder, file content, server backend fs/sqlite, how the revocation reaches the server); for every generated case the product {16 route steps taken from crates/server/src/server.rs} x {credential forms: none, 6 malformed, unknown key, revoked key, 4 'valid key over other bytes', 2 other-account, 5 legacy/odd} x {access: none, deny-list with A, allow-list without A, allow+deny with A} is enumerated exhaustively before revocation, after revocation and after revocation+restart. One evaluation = one request ('requests'); oracle: response is neither 2xx nor 101 and the server snapshot (per-account sync status, folders, trusted devices read from the server backend; sha256 of every file below the data dir; websocket count) is unchanged. Positive control per route step: the same request (same bytes) correctly signed by trusted device 1 is accepted. Non-trivial = refused request whose positive control was accepted AND (changed the server snapshot, or is a read route that returned the account's data, or - for PUT on an existing account - created the account once it had been deleted). Distinct = distinct (case, phase, route, access config, credential form). access-file: same oracle with correctly signed requests of an account that is on the deny list / absent from the allow list loaded from config.toml.",
+    rule: "routes: proptest generates the account content and the pending local changes that make request bodies valid and state-changing (notes per folder, extra folder, new folder, file content, server backend fs/sqlite, how the revocation reaches the server); for every generated case the product {16 route steps taken from crates/server/src/server.rs} x {credential forms: none, 6 malformed, unknown key, revoked key, 4 'valid key over other bytes', 2 other-account, 5 legacy/odd} x {access: none, deny-list with A, allow-list without A, allow+deny with A, configured-but-empty allow list} is enumerated exhaustively before revocation, after revocation and after revocation+restart. One evaluation = one request ('requests'); oracle: response is neither 2xx nor 101 and the server snapshot (per-account sync status, folders, trusted devices read from the server backend; sha256 of every file below the data dir; websocket count) is unchanged. Positive control per route step: the same request (same bytes) correctly signed by trusted device 1 is accepted. Non-trivial = refused request whose positive control was accepted AND (changed the server snapshot, or is a read route that returned the account's data, or - for PUT on an existing account - created the account once it had been deleted). Distinct = distinct (case, phase, route, access config, credential form). access-file: same oracle with correctly signed requests of an account that is on the deny list / absent from the allow list loaded from config.toml.",
     assumptions: &[
         "routes that need no authentication by design are outside the statement and are only listed: GET / (redirect), GET /api/v1 (name+version), /api/v1/docs*, GET /api/v1/sync/connections (global websocket count), GET /api/v1/relay (pairing relay, addressed by public key)",
         "for an account id that does not exist on the server any signature is accepted (Backend::verify_device returns Ok when the account is unknown; needed for account creation); the statement is about existing accounts, so only the access lists are asserted for creation",
@@ -147,16 +147,19 @@ enum Cfg {
     DenyA,
     AllowWithoutA,
     Both,
+    /// an allow list that is configured but empty: nobody is on it
+    EmptyAllow,
 }
 
 impl Cfg {
-    const ALL: [Cfg; 4] = [Cfg::None, Cfg::DenyA, Cfg::AllowWithoutA, Cfg::Both];
+    const ALL: [Cfg; 5] = [Cfg::None, Cfg::DenyA, Cfg::AllowWithoutA, Cfg::Both, Cfg::EmptyAllow];
     fn name(&self) -> &'static str {
         match self {
             Cfg::None => "none",
             Cfg::DenyA => "deny-list-with-A",
             Cfg::AllowWithoutA => "allow-list-without-A",
             Cfg::Both => "allow+deny-with-A",
+            Cfg::EmptyAllow => "empty-allow-list",
         }
     }
     fn lists(&self, a: &AccountId, b: &AccountId) -> Option<AccessLists> {
@@ -173,6 +176,10 @@ impl Cfg {
             Cfg::Both => Some(AccessLists {
                 allow: Some(vec![a.to_string(), b.to_string()]),
                 deny: Some(vec![a.to_string()]),
+            }),
+            Cfg::EmptyAllow => Some(AccessLists {
+                allow: Some(vec![]),
+                deny: None,
             }),
         }
     }
@@ -510,7 +517,7 @@ impl World {
                 .copied()
                 .filter(|f| *f != Form::RevokedKey || self.d2_revoked)
                 .collect();
-            if matches!(cfg, Cfg::DenyA | Cfg::AllowWithoutA) {
+            if matches!(cfg, Cfg::DenyA | Cfg::AllowWithoutA | Cfg::EmptyAllow) {
                 list.push(Form::Valid);
             }
             for form in list {
@@ -1594,6 +1601,12 @@ async fn access_file_case(case: &Case, case_hash: u64, out: &mut Outcome) -> Res
             "allow-list-without-A",
             AccessLists { allow: Some(vec![b_id.to_string()]), deny: None },
             AccessLists { allow: Some(vec![b_id.to_string()]), deny: None },
+        ),
+        (
+            "not-allowed-account",
+            "empty-allow-list",
+            AccessLists { allow: Some(vec![]), deny: None },
+            AccessLists { allow: Some(vec![]), deny: None },
         ),
         (
             "denied-and-allowed-account",
